@@ -119,3 +119,21 @@ PROPS["C08"] = dict(
     assumptions=COMMON_ASSUMPTIONS + ["objects of KEEP_STRUCTURE types (and Groups) may disappear by structural merging: the model accepts their disappearance without re-deriving the merge rule",
                                       "mixed Misc-below-I/O subtrees under a single ADAPT flag are only checked for the clauses that the statement determines"],
 )
+
+
+PROPS["C07"] = dict(
+    level_text="Exhaustive within bounds: every generated description (the generator is the reference model of what was written), "
+               "the level-count boundary family around the 128-level limit, every token string of the small scope and every "
+               "single-character deletion/duplication of base descriptions are given to the real parser/loader under ASan; accepted "
+               "descriptions are compared with the generator, exported under all 16 flag words at every buffer length, reloaded and re-exported.",
+    technique="bounded-exhaustive input enumeration on the real parser (generator as reference model) + export/import fixpoint",
+    design_ref="DESIGN.md 5 (C07)",
+    stages=[simple("gen", "c07_synthetic", args={"quick": ["--stage", "gen"], "thorough": ["--stage", "gen"]}, deadline={"quick": 200, "thorough": 3000}),
+            simple("bound", "c07_synthetic", args={"quick": ["--stage", "bound"], "thorough": ["--stage", "bound"]}, deadline={"quick": 200, "thorough": 600}),
+            simple("tokens", "c07_synthetic", args={"quick": ["--stage", "tokens"], "thorough": ["--stage", "tokens"]}, deadline={"quick": 200, "thorough": 3000})],
+    explanation="gen: synthetic universe of section 4 (38k descriptions quick). bound: 117..131 levels x 6 shapes. tokens: all strings of <= 4 (5) tokens "
+                "over a 24-token alphabet + deletions/duplications of 5 base descriptions.",
+    bounds={"quick": "universe quick scope; token strings <= 4 tokens", "thorough": "universe thorough scope; token strings <= 5 tokens"},
+    assumptions=COMMON_ASSUMPTIONS + ["descriptions are loaded with every type kept; Group and Die levels are subject to the documented merging and are not counted",
+                                      "interleaved indexes= specifications are only checked through well-formedness and the export/import fixpoint, explicit permutations exactly"],
+)
